@@ -18,6 +18,20 @@ package main
 // For every Stop/Close method of those types: is close(<quit channel>) executed inside a sync.Once.Do ?
 //
 // Unknown shapes are errors.
+//
+// Normalisations (DESIGN.md §7):
+//
+//   - "socket read through a helper".  A `for` loop is a receive loop if its body reads a socket itself or calls
+//     — by plain name — a package-level function of the package that does (directly or through further such
+//     functions): `msg, ok := readTCPFrame(conn, prefix[:])` is the loop's read moved into a function.  The
+//     loop is listed under the function that contains the `for`, as before.
+//   - "array as loop buffer".  `var b [N]byte` declared before the loop is a buffer every iteration reuses exactly
+//     like `b := make([]byte, N)`: it counts as an outer buffer (and a slice of it handed to a goroutine as
+//     sharing).  This one is a strengthening: such a loop was read as not reusing anything.
+//   - a package function that receives the loop buffer must not retain it (nonRetaining); besides the uses
+//     listed above it may hand the parameter to the standard-library calls the loop itself may make with it
+//     (io.ReadFull / Read / ReadFromUDP fill it, Write / WriteToUDP / binary.*.UintN / PutUintN read or fill it;
+//     none keeps the slice: io.Reader and io.Writer forbid it).
 
 import (
 	"fmt"
@@ -170,10 +184,19 @@ func nonRetaining(fs pkgFuncs, name string, idx int, visiting map[string]bool) e
 				}
 			}
 			if sel, ok := par.Fun.(*ast.SelectorExpr); ok {
-				// binary.BigEndian.Uint16/32/64(p[a:])
-				if strings.HasPrefix(sel.Sel.Name, "Uint") {
+				// binary.BigEndian.Uint16/32/64(p[a:]), PutUint16/32/64(p[a:], v)
+				if strings.HasPrefix(sel.Sel.Name, "Uint") || strings.HasPrefix(sel.Sel.Name, "PutUint") {
 					if inner, ok := sel.X.(*ast.SelectorExpr); ok && (inner.Sel.Name == "BigEndian" || inner.Sel.Name == "LittleEndian") {
 						return true
+					}
+				}
+				// the standard-library calls a receive loop itself may make with its buffer (same list as below)
+				switch sel.Sel.Name {
+				case "ReadFromUDP", "Read", "ReadFull", "Write", "WriteToUDP":
+					for _, a := range par.Args {
+						if a == cur {
+							return true
+						}
 					}
 				}
 			}
@@ -234,19 +257,23 @@ func serverFacts(repo string) (string, any, error) {
 							outerList = append(outerList, id.Name)
 						}
 					}
-				case *ast.ForStmt:
-					reads := false
-					ast.Inspect(x.Body, func(n ast.Node) bool {
-						if c, ok := n.(*ast.CallExpr); ok {
-							if sel, ok := c.Fun.(*ast.SelectorExpr); ok {
-								switch sel.Sel.Name {
-								case "ReadFromUDP", "Accept", "ReadFull":
-									reads = true
+				case *ast.DeclStmt:
+					// var b [N]byte
+					if g, ok := x.Decl.(*ast.GenDecl); ok && g.Tok == token.VAR {
+						for _, sp := range g.Specs {
+							vs := sp.(*ast.ValueSpec)
+							if at, ok := vs.Type.(*ast.ArrayType); ok && at.Len != nil && len(vs.Values) == 0 {
+								if el, ok := at.Elt.(*ast.Ident); ok && el.Name == "byte" {
+									for _, id := range vs.Names {
+										outer[id.Name] = true
+										outerList = append(outerList, id.Name)
+									}
 								}
 							}
 						}
-						return true
-					})
+					}
+				case *ast.ForStmt:
+					reads := readsSocket(x.Body, fs, 0)
 					if !reads {
 						continue
 					}
@@ -461,4 +488,28 @@ func serverFacts(repo string) (string, any, error) {
 	}
 	b.WriteString("]\n\nend Manticore.Gen.ServerFacts\n")
 	return b.String(), map[string]any{"loops": loops, "stops": stops}, nil
+}
+
+// readsSocket: the node contains a socket read, or a call by plain name of a package-level function that does
+func readsSocket(n ast.Node, fs pkgFuncs, depth int) bool {
+	reads := false
+	ast.Inspect(n, func(m ast.Node) bool {
+		c, ok := m.(*ast.CallExpr)
+		if !ok || reads {
+			return !reads
+		}
+		switch f := c.Fun.(type) {
+		case *ast.SelectorExpr:
+			switch f.Sel.Name {
+			case "ReadFromUDP", "Accept", "ReadFull":
+				reads = true
+			}
+		case *ast.Ident:
+			if fd, ok := fs[f.Name]; ok && depth < 4 && readsSocket(fd.Body, fs, depth+1) {
+				reads = true
+			}
+		}
+		return !reads
+	})
+	return reads
 }
